@@ -107,10 +107,33 @@ class Scenario:
                     if due():
                         h.lose(pump=False)
             return on_connect
+        overlap = cause == 'server_disconnect_overlap'
+
+        def mk_disconnect(ns):
+            # 'server_disconnect_overlap': the server ends every namespace
+            # back to back and the handlers overlap - asyncio: they suspend;
+            # threaded (a thread per message): the thread of the first one
+            # is parked in its handler while the others run start to finish
+            if h.is_async and overlap:
+                async def on_disconnect(r):
+                    self.events.append(('disconnect', ns, r,
+                                        len(h.attempts)))
+                    await asyncio.sleep(0.01)
+            else:
+                def on_disconnect(r):
+                    self.events.append(('disconnect', ns, r,
+                                        len(h.attempts)))
+                    if overlap and ns == nss[0]:
+                        for other in nss[1:]:
+                            h.deliver(R.DISCONNECT, other)
+                        h.pump()
+            return on_disconnect
         for ns in nss:
             h.c.on('connect', mk_connect(ns), namespace=ns)
-            h.on('disconnect', (lambda ns: lambda r: self.events.append(
-                ('disconnect', ns, r, len(h.attempts))))(ns), ns)
+            if overlap:
+                h.c.on('disconnect', mk_disconnect(ns), namespace=ns)
+            else:
+                h.on('disconnect', mk_disconnect(ns), ns)
         h.pending_loss = False
 
     def w(self, extra=None):
@@ -208,6 +231,13 @@ class Scenario:
                 h.server_send(R.DISCONNECT, ns)
         elif c == 'server_close':
             h.server_close()
+        elif c == 'server_disconnect_overlap':
+            h.server_send(R.DISCONNECT, self.nss[0])
+            if len(self.nss) > 1:
+                self.ctx.count('overlapping_server_disconnects')
+            if h.eio.state == 'connected':
+                # the server closes the transport it has no use for
+                h.lose()
 
     def follow_up_sync(self, url, kw):
         h = self.h
@@ -281,6 +311,14 @@ class Scenario:
                         h.deliver(R.DISCONNECT, ns)
                 elif cse == 'server_close':
                     await h.a_server_close()
+                elif cse == 'server_disconnect_overlap':
+                    for ns in self.nss:
+                        h.deliver(R.DISCONNECT, ns)
+                    await asyncio.sleep(1)
+                    if len(self.nss) > 1:
+                        self.ctx.count('overlapping_server_disconnects')
+                    if h.eio.state == 'connected':
+                        await h.a_lose()
                 await asyncio.sleep(self.horizon())
             h.run(cause(), horizon=1)
             ok = self.judge(first=2)
@@ -462,6 +500,7 @@ def run(ctx):
         'blocked in its wait (threaded: from inside the wait hook)']
     ctx.require('scenarios_judged', 300)
     ctx.require('namespace_ended_before_the_loss', 4)
+    ctx.require('overlapping_server_disconnects', 4)
     ctx.require('backoff_waits_checked', 300)
     ctx.require('successful_reconnections', 50)
     ctx.require('efforts_given_up', 20)
@@ -484,7 +523,7 @@ def run(ctx):
                              None, None))
     # intentional ends
     for cause in ('client_disconnect', 'server_disconnect_last',
-                  'server_close', 'disabled'):
+                  'server_close', 'disabled', 'server_disconnect_overlap'):
         for kind in ('sync', 'async'):
             for params in grid[::5]:
                 jobs.append((kind, params, 'TT', cause, None, None))
